@@ -62,6 +62,12 @@ def gen_plan(seed, tier):
     "segment": r.chance(0.6), "delay": r.chance(0.5),
     "recv_mode": r.pick(["all", "choose", "choose", "dribble"]),
   }
+  ra = Rng(mix(seed, "acts"))
+  if ra.chance(0.2):
+    # the switch is built without one or two of the rewrite actions
+    cfg["actions_off"] = sorted(set(ra.pick(["set_nw_src", "set_nw_dst",
+                                             "set_nw_tos", "enqueue"])
+                                    for _ in range(ra.randint(1, 2))))
   n = r.randint(4, 40 if tier == "thorough" else 24)
   # (a hello may carry a body, which the receiver has to ignore)
   steps = [{"op": "hello", "flush": r.chance(0.5),
@@ -347,12 +353,21 @@ def _drive(sim, world, plan, known, hit_known):
     elif op == "flow_mod":
       m = _match_alphabet(st["m"], nports)
       acts = [("output", st["outp"], 0xffff)]
-      if st.get("rw"):
-        acts = [tuple(st["rw"])] + acts
-        sim.probes["flow_mod_with_address_rewrite"] += 1
       key = (W.canon_match(m), st["prio"])
       full = st["cmd"] == W.FC_ADD and key not in model["flows"] and \
           len(model["flows"]) >= cfg["max_entries"]
+      rw = st.get("rw")
+      # (an action this switch was built without: refused like an unknown
+      # one; only generated where that is the one thing wrong)
+      rw_off = bool(rw) and rw[0] in (cfg.get("actions_off") or ())
+      if rw_off and (full or st["cmd"] != W.FC_ADD
+                     or st.get("fbuf") is not None
+                     or st.get("fbad") is not None):
+        rw = None
+        rw_off = False
+      if rw:
+        acts = [tuple(rw)] + acts
+        sim.probes["flow_mod_with_address_rewrite"] += 1
       wire_acts = acts
       if st.get("fbad") is not None and not full:
         bad = ("raw", struct.pack("!HHL", st["fbad"], 8, 0x2320))
@@ -361,7 +376,11 @@ def _drive(sim, world, plan, known, hit_known):
                            priority=st["prio"],
                            buffer_id=st.get("fbuf", W.NO_BUFFER))
       world.send(raw)
-      if wire_acts is not acts:
+      if rw_off:
+        sim.probes["flow_mod_with_disabled_action"] += 1
+        E("error", xid, etype=W.ET_BAD_ACTION,
+          codes=(W.BAC_BAD_TYPE,), req=raw)
+      elif wire_acts is not acts:
         sim.probes["flow_mod_with_unknown_action"] += 1
         E("error", xid, etype=W.ET_BAD_ACTION,
           codes=(W.BAC_BAD_TYPE, W.BAC_BAD_VENDOR, W.BAC_BAD_VENDOR_TYPE),
